@@ -57,6 +57,11 @@ def build(cfg, secret, locked=False, with_uids=True, sub_pw=None):
     spec = rs2k.Spec('iterated', 8, b'saltSALT', 0)
 
     def secbody(k):
+        if locked == 'stub':
+            if k != kid:
+                return keypool.secret_body(k)
+            a, c_, params, _secret, curve, kdf = keypool.numbers(k)
+            return rkeys.build_gnu_dummy_body(a, c_, params, curve, kdf)
         if not locked or (locked == 'subs' and k == kid):
             return keypool.secret_body(k)
         pw = sub_pw if (sub_pw is not None and k != kid) else PW
@@ -109,6 +114,8 @@ def do_op(cfg, op, form, enforce, user):
     locked = form in ('locked', 'unlocked', 'failed-unlock')
     if form == 'sub-locked':
         locked = 'subs'       # the primary key is stored in the clear, every subkey is passphrase-protected and stays locked
+    if form == 'stub-primary':
+        locked = 'stub'       # gpg --export-secret-subkeys: the primary is a stub without secret material, the subkeys are complete
     noid = form == 'noid'
     key = keypool.pgpy_key(build(cfg, secret, locked, with_uids=not noid, sub_pw='another passphrase' if form == 'failed-unlock' else None))
     key._require_usage_flags = enforce
@@ -268,6 +275,23 @@ def evaluate(c, rec):
         elif outcome == 'raised' and op in NEED and (C | cfg['uids'][user if user is not None else 0]) & NEED[op] and op != 'encrypt' and enforce:
             rec.finding('policy', 'refused-although-the-unlocked-primary-grants/' + op, case, repr(r[1]))
         return
+    if form == 'stub-primary':
+        # the stub can never act; a subkey that grants the capability holds everything that is needed
+        able = [k for n, k, f in comps if f & need and k != cfg['primary']]
+        rec.case(key, True, labels + ['outcome/' + outcome, 'able-subkeys/%d' % len(able)], dict(sample, outcome=outcome, able=able))
+        if outcome == 'ok':
+            named, acted, info = acting_component(cfg, r[1], op)
+            if named is None or named == cfg['primary']:
+                rec.finding('form', 'stub-primary-performs/' + op, case, str(named))
+            elif named not in able and enforce:
+                rec.finding('policy', 'acting-component-lacks-capability/' + op, case, 'stub-primary form: named %s, able %r' % (named, able))
+            else:
+                subj = ('doc', b'usage policy') if op == 'sign' else ('cert', keypool.ref_public('ed25519-2'), 'uid', b'Pool Key <pool@example.org>')
+                if not rsig.verify(info, subj, keypool.ref_public(named))[0]:
+                    rec.finding('policy', 'named-component-did-not-act/' + op, case, 'stub-primary form')
+        elif able:
+            rec.finding('policy', 'refused-although-a-complete-subkey-grants/' + op, case, '%r; able: %r' % (r[1], able))
+        return
     # ---- capability matrix
     if outcome == 'raised':
         nontriv = not granting
@@ -278,6 +302,10 @@ def evaluate(c, rec):
             # with enforcement off the operation proceeds with some component; it may still fail if that component's
             # algorithm cannot perform it, but it must not be refused on account of the flags
             rec.finding('policy', 'enforcement-off-still-refuses/' + op, case, repr(r[1]))
+        elif not enforce and op in NEED and (op != 'encrypt' or cfg['primary'].startswith('rsa')):
+            # ... and the key the caller addressed is able to do the work by its algorithm (every primary key of the pool can
+            # sign; RSA keys can encrypt): being refused because the search ended on a subkey of another algorithm is a refusal
+            rec.finding('policy', 'enforcement-off-refused-although-the-addressed-key-is-able/' + op, case, repr(r[1]))
         return
     if op in ('bind', 'selfcert'):
         rec.case(key, False, labels + ['outcome/ok'], dict(sample, outcome='ok'))
@@ -306,7 +334,7 @@ FORMS = ['public', 'private', 'locked', 'unlocked', 'noid']
 
 def sweep(cfg, rec, pick=0):
     for op in OPS:
-        for form in FORMS + (['failed-unlock', 'sub-locked'] if cfg['subs'] and op in ('sign', 'certify') else []):
+        for form in FORMS + (['failed-unlock', 'sub-locked', 'stub-primary'] if cfg['subs'] and op in ('sign', 'certify') else []):
             for enforce in (True, False):
                 users = [None] + ([1] if len(cfg['uids']) > 1 and op in ('sign', 'certify', 'encrypt') else [])
                 for user in users:
